@@ -109,6 +109,13 @@ reg('C09', 'Hypothesis generated dense datasets vs direct-formula oracle',
     'generated datasets (ids without spikes at every position, unit factors, rates, curated or '
     'not) are compared with the defining formulas evaluated on the stored arrays.', TRUST + DS)
 
+reg('C10', 'Hypothesis stateful (RuleBasedStateMachine) save/reload histories vs dictionary reference model',
+    'A rule-based state machine interleaves save_spike_clusters, save_metadata, foreign '
+    '(valid/malformed) TSV/CSV files, subset-waveform export, close and reload on a generated '
+    'dataset; after every reload (and once more at the end) the freshly loaded model is compared '
+    'with a dictionary model of the last saved state, and stored waveforms with the raw windows. '
+    'The shrunk (spec, trace) pair is the replay file.', TRUST + DS + ' Python csv; mtscomp.')
+
 
 def main():
     props = [json.loads(l) for l in (HERE / 'properties.jsonl').read_text().splitlines() if l.strip()]
